@@ -23,7 +23,7 @@ expressions  names, universe[e], x.pop(), set(e) / set() / frozenset(e) / tuple(
              universe.sorted(e), a in b, a not in b, a <= b, a >= b, a == b, not / and / or, x.issuperset(e),
              x.isdisjoint(e), set(e).union(*[...]), set(e).intersection(*[...]), generator / list comprehension with
              one `for` and optional `if`s, {k: i for i, k in enumerate(itertools.chain(a, b))} (its keys),
-             DimensionGroup(universe, names), hash(e), isinstance(other, DimensionGroup), True / False
+             DimensionGroup(universe, names [, _conform=True|False]), hash(e), isinstance(other, DimensionGroup), True / False
 
 Meaning of the primitives (set methods, pop order, KeyError, ...) is fixed in coq/Model/GroupX.v.  Loops get fuel
 `S (length u)` (GOutOfFuel = the Python loop would not end within |u|+1 rounds).
@@ -316,9 +316,15 @@ class Fn:
         src = ast.unparse(n)
         fsrc = ast.unparse(n.func)
         if fsrc == "DimensionGroup":
-            # DimensionGroup(universe, names) / DimensionGroup(universe, names=names): the constructor, _conform=True
+            # DimensionGroup(universe, names) / DimensionGroup(universe, names=names) [, _conform=True|False]
             args = list(n.args)
             kws = {k.arg: k.value for k in n.keywords}
+            conform = "true"
+            if "_conform" in kws:
+                c = kws.pop("_conform")
+                if not (isinstance(c, ast.Constant) and isinstance(c.value, bool)):
+                    raise Unsupported(f"{self.coqname}: unsupported constructor call {src}")
+                conform = "true" if c.value else "false"
             if len(args) == 1 and set(kws) == {"names"}:
                 args.append(kws["names"])
             elif not (len(args) == 2 and not kws):
@@ -327,7 +333,7 @@ class Fn:
             t, ty = self.E(args[1], env, None)
             if ty0 != "universe" or ty not in STR_COLL:
                 raise Unsupported(f"{self.coqname}: unsupported constructor call {src}")
-            return f"gen_group u ({t}) true", "gres group"
+            return f"gen_group u ({t}) {conform}", "gres group"
         if n.keywords:
             raise Unsupported(f"{self.coqname}: keyword arguments in {src}")
         if isinstance(n.func, ast.Name):
